@@ -422,6 +422,31 @@ func TestC15(t *testing.T) {
 			}
 		}
 	})
+	// Phase 3e: a peer announces registry elements that are variable-length with a fixed length
+	// (what the collector makes of that template's data is not judged here); afterwards the same
+	// elements, announced as the registry has them, must encode and decode as before.
+	t.Run("fixed_announcement_then_variable", func(t *testing.T) {
+		n := 0
+		for _, f := range glue.RegistryFields() {
+			if f.Len != ref.VarLen || n >= 12 {
+				continue
+			}
+			n++
+			col := cols["tcp"]
+			if col == nil {
+				col = glue.NewCol("tcp", collector.DecodingModeStrict, nil, 0)
+				cols["tcp"] = col
+			}
+			fixed := f
+			fixed.Len = uint16(8 + 8*n)
+			col.Decode(ref.TemplateMessage(ref.Header{Domain: 8}, ref.Template{ID: uint16(5000 + n), Fields: []ref.Field{fixed, sentinel()}}), "127.0.0.1:2")
+			for pos := 0; pos < 3; pos++ {
+				if !check(t, "fixed_announcement_then_variable", Case{F: f, V: ref.Value{B: []byte("eth0")}, Pos: pos}, "after_fixed_length_announcement") {
+					return
+				}
+			}
+		}
+	})
 	// Phase 4: boundary + random values of every type.
 	all := glue.UserFields()
 	reg := glue.RegistryFields()
